@@ -134,6 +134,10 @@ def sums(fggs, S, R, sname, dt, M, viols, obs, ctx):
     import torch
     for dim in (0, 1):
         lib = S.sum(M, dim=dim)
+        want_shape = tuple(M.shape[:dim] + M.shape[dim + 1:])
+        if not isinstance(lib, torch.Tensor) or lib.dtype != M.dtype or tuple(lib.shape) != want_shape:
+            viols.append(C.viol(f'op:{sname}:sum:shape-or-dtype', f'sum(dim={dim}) of a {M.dtype} tensor of shape {tuple(M.shape)} returned {getattr(lib, "dtype", type(lib).__name__)} of shape {tuple(getattr(lib, "shape", ()))}', context=ctx))
+            continue
         cols = M.unbind(dim)
         acc = cols[0]
         racc = cols[0]
